@@ -25,9 +25,9 @@ SUBLEX = {
     "quick": [("numeric", ["a", "1", "23", ".", "_", " "], 6),
               ("comment", ["/", "*", "\n", "a", "\"", " "], 6),
               ("operator", ["|", ">", "-", "=", "<", "!", "&", ":"], 5)],
-    "thorough": [("numeric", ["a", "1", "23", ".", "_", " ", "e", "-"], 7),
-                 ("comment", ["/", "*", "\n", "a", "\"", " ", "é"], 7),
-                 ("operator", ["|", ">", "-", "=", "<", "!", "&", ":", ".", "@"], 6)],
+    "thorough": [("numeric", ["a", "1", "23", ".", "_", " ", "e", "-"], 6),
+                 ("comment", ["/", "*", "\n", "a", "\"", " ", "é"], 6),
+                 ("operator", ["|", ">", "-", "=", "<", "!", "&", ":", ".", "@"], 5)],
 }
 
 
